@@ -588,8 +588,9 @@ def known_class(c, kind):
     if c.entry in "TCA":
         if misplaced_with_param(S):
             return "K-new-5"
-        if re.search(rb"\bmatch=(['\"])[^'\"]*/\s+/", S):
-            return "K-new-6"
+        for mm in re.finditer(rb"\bmatch=(['\"])(.*?)\1", S, re.S):
+            if any(re.fullmatch(rb"\s*/\s*/\s*", alt) for alt in mm.group(2).split(b"|")):
+                return "K-new-6"      # a pattern, or an alternative of a union, that is just '//' (also written '/ /')
         if any(a not in (b"disable-output-escaping", b"xml:space")
                for t in re.findall(rb"<xsl:text\b([^>]*)>", S) for a in re.findall(rb"([A-Za-z_][\w:.\-]*)\s*=", re.sub(rb"'[^']*'|\"[^\"]*\"", b"''", t))):
             return "K-new-4"
